@@ -16,6 +16,8 @@ digit lists, exponents and options.
   un-carried exponent by `algorithm.rs` and on the carried one by `compact.rs`.
 * `trim_exact`, `trim_only_integral` (semantic: integral after rounding ⇔ trimmed), `trim_scientific`, and the
   regression theorems `trim_after_rounding_*` (the former finding C14-decimal-trim-after-rounding).
+* `carry_padding_regression` (the former finding C14-negative-exponent-carry-padding) and `digits_written_count`: kept
+  digits plus zero padding ≤ max (max digits, min digits, integer digits + 1) in positional notation, no exclusion.
 * `punctuation_positional`: positional output consists of decimal digits and the configured decimal point only.
 * `value_full`: the value of the emitted text through the parser specification — kept as `def … : Prop` (not proved).
 -/
@@ -81,13 +83,16 @@ theorem layout_scientific (fmt : Format) (feats : Features) (ds : List Nat) (e :
           numeral r (e + (if (roundSci ds o).2 = true then 1 else 0)).natAbs) := by
   rw [LexVerif.Proof.WriteFloatDragon.writeScientific_eq, LexVerif.Proof.WriteFloatCompact.writeExponent_eq]
 
-/-- **negative exponent, positional** (`carry`: `0.0999…` → one zero fewer, `0.99…` → `1.0`) -/
+/-- **negative exponent, positional** (`carry`: `0.0999…` → one zero fewer, `0.99…` → `1.0`; after fix
+C14-negative-exponent-carry-padding the `0` of that `1.0` counts as a written digit, like `10.0` of the positive layout:
+the `min` padding starts from `count + 1 = 2` digits) -/
 theorem layout_negative (ds : List Nat) (e : Int) (o : WOpts) :
     writeNegative ds e o =
       (if (truncateAndRound ds o).2 = true ∧ e.natAbs = 1 then
         (if o.trim = true then [49] else [49, o.dp, 48] ++
-          (if (truncateAndRound ds o).1.length < minExactDigits (truncateAndRound ds o).1.length o then
-            zeros (minExactDigits (truncateAndRound ds o).1.length o - (truncateAndRound ds o).1.length) else []))
+          (if (truncateAndRound ds o).1.length + 1 < minExactDigits ((truncateAndRound ds o).1.length + 1) o then
+            zeros (minExactDigits ((truncateAndRound ds o).1.length + 1) o - ((truncateAndRound ds o).1.length + 1))
+           else []))
       else
         [48, o.dp] ++ zeros (if (truncateAndRound ds o).2 = true then e.natAbs - 2 else e.natAbs - 1)
           ++ chars (truncateAndRound ds o).1 ++
@@ -227,6 +232,147 @@ theorem digits_kept_count (ds : List Nat) (e : Int) (o : WOpts) (hds : 1 ≤ ds.
   obtain ⟨a1, _, a3, _, _⟩ := roundSci_length ds o hds hmx
   obtain ⟨b1, _, b3, _, _⟩ := roundPos_length ds e o hds hmx
   exact ⟨⟨a1, a3⟩, ⟨b1, b3⟩⟩
+
+/-- **regression (was the finding C14-negative-exponent-carry-padding)**: `0.9996` (digits 9996, exponent −1) with
+`max_significant_digits = min_significant_digits = 3` is written `1.00` (was `1.000`), with `max = min = 2` `1.0` (was
+`1.00`) — the Dragonbox layout; the compact layout (rounds before choosing the layout) always wrote these. -/
+theorem carry_padding_regression :
+    writeDigitsN Format.standard {} [9, 9, 9, 6] (-1) { maxDigits := some 3, minDigits := some 3 } = [49, 46, 48, 48] ∧
+    writeDigitsN Format.standard {} [9, 9, 9, 6] (-1) { maxDigits := some 2, minDigits := some 2 } = [49, 46, 48] ∧
+    writeDigitsC Format.standard {} [9, 9, 9, 6] (-1) { maxDigits := some 3, minDigits := some 3 } = [49, 46, 48, 48] ∧
+    writeDigitsC Format.standard {} [9, 9, 9, 6] (-1) { maxDigits := some 2, minDigits := some 2 } = [49, 46, 48] ∧
+    writeDigitsN Format.standard {} [9, 9, 9, 6] (-1) { maxDigits := some 3, minDigits := some 3, trim := true } = [49] ∧
+    writeDigitsN Format.standard {} [9, 9, 9, 6] (-1) { maxDigits := some 3, minDigits := some 5 } = [49, 46, 48, 48, 48, 48] := by
+  decide +kernel
+
+/-! ## number of digits written (kept digits **and** zero padding) -/
+
+/-- significant digits of a positional text: the bytes other than the decimal point, from the first byte that is not `0` -/
+def sigWritten (out : List Nat) (dp : Nat) : Nat :=
+  ((out.filter (fun b => decide (b ≠ dp))).dropWhile (fun b => decide (b = 48))).length
+
+theorem dropWhile_length_le {α} (p : α → Bool) (l : List α) : (l.dropWhile p).length ≤ l.length := by
+  induction l with
+  | nil => simp
+  | cons a t ih => simp only [List.dropWhile_cons]; split <;> (simp; try omega)
+
+theorem sigWritten_le (out : List Nat) (dp : Nat) : sigWritten out dp ≤ out.length :=
+  Nat.le_trans (dropWhile_length_le _ _) (List.length_filter_le _ _)
+
+/-- leading zeros and points are not significant -/
+theorem sigWritten_prefix (z l : List Nat) (dp : Nat) (hz : ∀ b ∈ z, b = 48 ∨ b = dp) :
+    sigWritten (z ++ l) dp ≤ l.length := by
+  induction z with
+  | nil => exact sigWritten_le l dp
+  | cons b t ih =>
+    have iht := ih (fun x hx => hz x (List.mem_cons_of_mem _ hx))
+    unfold sigWritten at iht ⊢
+    by_cases hb : b = dp
+    · simpa [List.filter_cons, hb] using iht
+    · have h48 : b = 48 := (hz b (List.mem_cons_self ..)).resolve_right hb
+      subst h48
+      simpa [List.filter_cons, hb] using iht
+
+/-- the decimal point is not a digit -/
+theorem sigWritten_point (a b : List Nat) (dp : Nat) : sigWritten (a ++ [dp] ++ b) dp ≤ a.length + b.length := by
+  unfold sigWritten
+  refine Nat.le_trans (dropWhile_length_le _ _) ?_
+  simp only [List.filter_append, List.length_append]
+  have h1 := List.length_filter_le (fun b => decide (b ≠ dp)) a
+  have h2 := List.length_filter_le (fun b => decide (b ≠ dp)) b
+  have h3 : ([dp].filter (fun b => decide (b ≠ dp))).length = 0 := by simp
+  omega
+
+theorem minExactDigits_eq (c : Nat) (o : WOpts) : minExactDigits c o = max (o.minDigits.getD 0) c := by
+  unfold minExactDigits; split <;> rename_i h <;> simp [h]
+
+/-- **`digits_written_count`** (no exclusion after fix C14-negative-exponent-carry-padding): in positional notation the
+significant digits written — kept digits plus zero padding — are at most
+`max (max_significant_digits, min_significant_digits, integer digits + 1)` (the `+ 1` is the mandatory `.0` of an integral
+value: `1.0` below one after a carry, `ddd.0` above one). -/
+theorem digits_written_count (ds : List Nat) (e : Int) (o : WOpts) (mx : Nat) (hds : 1 ≤ ds.length)
+    (hmx : o.maxDigits = some mx) (h1 : 1 ≤ mx) :
+    sigWritten (writeNegative ds e o) o.dp ≤
+      max (max mx (o.minDigits.getD 0)) (if (truncateAndRound ds o).2 = true ∧ e.natAbs = 1 then 1 + 1 else 0) ∧
+    sigWritten (writePositive ds e o) o.dp ≤ max (max mx (o.minDigits.getD 0)) (leadingOf ds e o + 1) := by
+  have hm0 : o.maxDigits ≠ some 0 := by rw [hmx]; intro h; cases h; omega
+  constructor
+  · obtain ⟨_, _, a3, a4⟩ := truncateAndRound_length ds o hds hm0
+    have hc := a3 mx hmx
+    rw [layout_negative]
+    generalize truncateAndRound ds o = tr at hc a4 ⊢
+    obtain ⟨T, c⟩ := tr
+    dsimp only at hc a4 ⊢
+    simp only [minExactDigits_eq]
+    generalize o.minDigits.getD 0 = mn
+    by_cases c1 : c = true ∧ e.natAbs = 1
+    · have hT : T.length = 1 := by rw [a4 c1.1]; rfl
+      rw [if_pos c1, if_pos c1]
+      by_cases c2 : o.trim = true
+      · rw [if_pos c2]
+        exact Nat.le_trans (sigWritten_le _ _) (by simp)
+      · rw [if_neg c2]
+        have := sigWritten_point [49] ([48] ++
+          (if T.length + 1 < max mn (T.length + 1) then zeros (max mn (T.length + 1) - (T.length + 1)) else [])) o.dp
+        refine Nat.le_trans this ?_
+        simp only [List.length_cons, List.length_nil, List.length_append]
+        split <;> simp only [zeros_length, List.length_nil] <;> omega
+    · rw [if_neg c1, if_neg c1]
+      have := sigWritten_prefix ([48, o.dp] ++ zeros (if c = true then e.natAbs - 2 else e.natAbs - 1))
+        (chars T ++ (if T.length < max mn T.length then zeros (max mn T.length - T.length) else [])) o.dp
+        (by
+          intro b hb
+          simp only [List.mem_append, List.mem_cons, List.not_mem_nil, or_false, zeros, List.mem_replicate] at hb
+          rcases hb with (hb | hb) | hb
+          · exact Or.inl hb
+          · exact Or.inr hb
+          · exact Or.inl hb.2)
+      rw [List.append_assoc ([48, o.dp] ++ _)]
+      refine Nat.le_trans this ?_
+      simp only [List.length_append, chars_length]
+      split <;> simp only [zeros_length, List.length_nil] <;> omega
+  · obtain ⟨_, _, b3, _, _⟩ := roundPos_length ds e o hds hm0
+    have hc := b3 mx hmx
+    rw [LexVerif.Proof.WriteFloatDragon.writePositive_eq]
+    have hL : leadingOf ds e o = e.toNat + 1 + (if (roundPos ds e o).2 = true then 1 else 0) := rfl
+    rw [hL]
+    generalize roundPos ds e o = tr at hc ⊢
+    obtain ⟨T, c⟩ := tr
+    dsimp only at hc ⊢
+    generalize e.toNat + 1 + (if c = true then 1 else 0) = L
+    simp only [minExactDigits_eq]
+    generalize o.minDigits.getD 0 = mn
+    by_cases hge : L ≥ T.length
+    · rw [if_pos hge]
+      by_cases c2 : o.trim = true
+      · rw [if_pos c2]
+        refine Nat.le_trans (sigWritten_le _ _) ?_
+        simp only [List.length_append, chars_length, zeros_length]; omega
+      · rw [if_neg c2]
+        have := sigWritten_point (chars T ++ zeros (L - T.length))
+          ([48] ++ (if max mn (L + 1) > L + 1 then zeros (max mn (L + 1) - (L + 1)) else [])) o.dp
+        have e1 : chars T ++ zeros (L - T.length) ++ [o.dp, 48] ++
+            (if max mn (L + 1) > L + 1 then zeros (max mn (L + 1) - (L + 1)) else []) =
+            chars T ++ zeros (L - T.length) ++ [o.dp] ++
+              ([48] ++ (if max mn (L + 1) > L + 1 then zeros (max mn (L + 1) - (L + 1)) else [])) := by simp
+        rw [e1]
+        refine Nat.le_trans this ?_
+        simp only [List.length_append, chars_length, zeros_length, List.length_cons, List.length_nil]
+        split <;> simp only [zeros_length, List.length_nil] <;> omega
+    · rw [if_neg hge]
+      have := sigWritten_point (chars (T.take L))
+        (chars (T.drop L) ++ (if max mn T.length > T.length then zeros (max mn T.length - T.length) else [])) o.dp
+      rw [List.append_assoc (chars (T.take L) ++ [o.dp])]
+      refine Nat.le_trans this ?_
+      simp only [List.length_append, chars_length, List.length_take, List.length_drop]
+      split <;> simp only [zeros_length, List.length_nil] <;> omega
+
+/-- non-vacuity: the bound is attained by the repaired case (`1.00`: 3 digits = max = min) and by the `.0` term
+(`0.95` with `max = 1`: `1.0`, 2 digits = integer digits + 1; `9.96` with `max = 2`: `10.0`, 3 digits) -/
+example : sigWritten (writeNegative [9, 9, 9, 6] (-1) { maxDigits := some 3, minDigits := some 3 }) 46 = 3 := by decide
+example : sigWritten (writeNegative [9, 5] (-1) { maxDigits := some 1 }) 46 = 2 := by decide
+example : sigWritten (writePositive [9, 9, 6] 0 { maxDigits := some 2 }) 46 = 3 := by decide
+example : sigWritten (writeNegative [1, 2, 3, 4] (-3) { maxDigits := some 2, minDigits := some 4 }) 46 = 4 := by decide
 
 /-! ## notation -/
 
